@@ -6,7 +6,7 @@ From Coq Require Import List NArith ZArith Bool String Lia.
 From Coq Require Import Strings.Byte.
 From Coq Require Import ZifyN ZifyNat ZifyBool.
 From Nexus Require Import Codec.Bytes Codec.BytesProofs Codec.Values Codec.Tlv Codec.TlvProofs
-     Codec.MsgPack Codec.MsgPackProofs Codec.Cbor Codec.CborProofs Codec.Json
+     Codec.MsgPack Codec.MsgPackProofs Codec.Cbor Codec.CborProofs Codec.Utf8 Codec.Json Codec.JsonProofs
      Codec.Schema Codec.MsgList Codec.MsgListProofs Codec.Serial Codec.Canon.
 Import ListNotations.
 
@@ -315,3 +315,90 @@ Proof.
   - cbn [json_plain] in Hp. apply value_equiv_dict_map.
     rewrite forallb_forall in Hp. rewrite Forall_forall in *. intros [k x] Hx. apply (IH (k, x) Hx). apply (Hp (k, x) Hx).
 Qed.
+
+(** ** JSON: round trip on the stated domain; Deserialize (Serialize m) *)
+
+Section JsonTop.
+  Variable fprint : N -> bytes.
+  Variable fparse : bytes -> option N.
+  Variable fdom : N -> bool.
+  Hypothesis float_text :
+    forall f, fdom f = true ->
+              float_is_nan_or_inf f = false
+              /\ forallb is_num_char (fprint f) = true
+              /\ (exists b t, fprint f = b :: t /\ (b2n b = c_minus \/ is_digit b = true))
+              /\ num_of_token fparse (fprint f) = Some (VFloat f).
+
+  Lemma canon_js_dicts_ok (v : value) : json_dom fdom v = true -> dicts_ok (canon_js v) = true.
+  Proof.
+    induction v as [| b | k z | f | s | s | l IH | m IH] using value_ind'; intros H; cbn [canon_js]; try reflexivity.
+    - destruct (z <? 0)%Z; reflexivity.
+    - destruct (float_is_nan_or_inf f); reflexivity.
+    - cbn [json_dom dicts_ok] in *. rewrite forallb_forall in *. rewrite Forall_forall in IH.
+      intros y Hy. apply in_map_iff in Hy. destruct Hy as [x [<- Hx]]. auto.
+    - cbn [json_dom dicts_ok] in *. apply andb_true_iff in H. destruct H as [Hk Hl].
+      assert (E : map fst (map (fun kv : bytes * value => (fst kv, canon_js (snd kv))) m) = map fst m)
+        by (rewrite map_map; apply map_ext; reflexivity).
+      rewrite E, Hk. cbn [andb].
+      rewrite forallb_forall in *. rewrite Forall_forall in IH. intros y Hy. apply in_map_iff in Hy.
+      destruct Hy as [[k x] [<- Hx]]. cbn [snd]. apply (IH (k, x) Hx).
+      specialize (Hl (k, x) Hx). cbn [fst snd] in Hl. apply andb_true_iff in Hl. tauto.
+  Qed.
+
+  Theorem json_roundtrip_top (v : value) (rest : bytes) :
+    json_dom fdom v = true -> (depth v <= max_nesting)%nat -> delim_ok rest = true ->
+    js_decode fparse (js_encode fprint v ++ rest) = DOk (canon_js v) rest.
+  Proof.
+    intros Hd Hdep Hr. unfold js_decode, js_decode_raw, js_encode, js_fuel_for.
+    rewrite (jdec_jenc fprint fparse fdom float_text v Hd) by (try assumption; lia).
+    rewrite canon_js_dicts_ok by exact Hd. reflexivity.
+  Qed.
+
+  (** the payload of a message is in the JSON domain *)
+  Definition payload_json_ok (m : msg) : bool :=
+    forallb (fun v => json_dom fdom (fval_to_value v)) (m_fields m).
+
+  Theorem json_serialize_deserialize (mo : mp_opts) (sc : schema) (m : msg) (trailing : bytes) :
+    schema_ok sc = true -> wf_msg sc m = true ->
+    payload_json_ok m = true -> payload_depth_ok m -> delim_ok trailing = true ->
+    exists bs m',
+      serialize fprint mo sc FJson m = SerOk bs
+      /\ deserialize fparse mo intended_shape sc FJson (bs ++ trailing) = OOk m'
+      /\ msg_norm m' = msg_norm (canon_msg FJson m).
+  Proof.
+    intros Hok Hwf Hpay Hdepth Htr.
+    destruct (msglist_roundtrip_generic canon_js CRUint64Only eq_refl (fun s => eq_refl) canon_js_int
+                (fun l => eq_refl) (fun d => eq_refl) code_js sc m Hok Hwf) as [l [m' [Hl [Hfrom Hnorm]]]].
+    exists (js_encode fprint (VList l)), m'. split; [|split].
+    - unfold serialize. rewrite Hl. reflexivity.
+    - destruct (omit_rule_generic sc m l Hl) as [s [k [Es [El [Hk _]]]]].
+      pose proof (schema_struct_ok sc s Hok (find_struct_in _ _ _ Es)) as Hs.
+      unfold struct_ok in Hs. repeat (apply andb_true_iff in Hs; destruct Hs as [Hs ?]).
+      match goal with H : (_ && _)%bool = true |- _ => apply andb_true_iff in H; destruct H as [Hc0 Hc1] end.
+      assert (Hdl : json_dom fdom (VList l) = true).
+      { cbn [json_dom]. rewrite El. cbn [forallb json_dom].
+        assert (Hc : int_in_range KI64 (s_code s) = true).
+        { apply in_range_i64. change (2 ^ 63)%Z with 9223372036854775808%Z in Hc1. lia. }
+        rewrite Hc. cbn [andb]. rewrite forallb_forall. intros x Hx. apply in_map_iff in Hx.
+        destruct Hx as [v [<- Hv]]. unfold payload_json_ok in Hpay. rewrite forallb_forall in Hpay.
+        apply Hpay. eapply (In_firstn k). exact Hv. }
+      assert (Hdep : (depth (VList l) <= max_nesting)%nat).
+      { apply list_depth_le; [unfold max_nesting; lia|]. rewrite El. constructor; [cbn; unfold max_nesting; lia|].
+        apply Forall_forall. intros x Hx. apply in_map_iff in Hx. destruct Hx as [v [<- Hv]].
+        unfold payload_depth_ok in Hdepth. rewrite Forall_forall in Hdepth. apply Hdepth. eapply (In_firstn k). exact Hv. }
+      unfold deserialize, items_of, top_rule_of, decode_value. cbn [intended_shape sh_top_json].
+      rewrite (json_roundtrip_top (VList l) trailing Hdl Hdep Htr).
+      cbn [canon_js code_rule_of sh_code_json sh_conv intended_shape]. exact Hfrom.
+    - exact Hnorm.
+  Qed.
+End JsonTop.
+
+(** ugorji writes a float as a FLOAT token (with '.' or exponent) exactly
+    outside [2^52, 1e21); inside, the text is an integer literal and the round
+    trip changes the value (see fixes/C14-json-large-float.md).  This is the
+    largest [fdom] the hypothesis [float_text] can hold on for Go's printer. *)
+Definition json_float_dom (bits : N) : bool :=
+  negb (float_is_nan_or_inf bits)
+  && (let e := ((bits / 2 ^ 52) mod 2048)%N in
+      let a := (bits mod 2 ^ 63)%N in
+      (e <? 1075)%N || (4921056587992461136 <=? a)%N).   (* |f| < 2^52  or  |f| >= 1e21 *)
